@@ -34,6 +34,18 @@ CHECKS = {
                 technique="deterministic simulation: read-only hash monitor at the sampler seam, scripted stub-surrogate peer, best-batch descent oracle on grid indices",
                 text="(a) lent history arrays hashed before/after every sample() of all nine samplers with ties/inf/float32-overflowing losses, in op sequences and whole calibrations; (b) a stub surrogate with scripted fit/predict (ties, negative, huge) must be trained on exactly the history and return the snapped batch_size lowest-prediction candidates; (c) every best-batch proposal must descend from one of the batch_size lowest-loss points by 1..range-1 grid steps.",
                 note="Ties at the selection threshold may be broken either way; clipping or snapping both count as 'confined to the space'."),
+    "C09": dict(engine="calsim", category="exploration", design="4/C09",
+                technique="deterministic simulation: op histories (calibrate / crash+restore / crash-inside-batch+restore) on a real Calibrator, sampler-seam record compared with reference round-robin and RL scheduling models",
+                text="The sampler seam records which position of scheduler.samplers produced each batch over the calibration's whole life, across repeated calibrate() calls and restores from the simulated folder; round-robin must be position i mod n with that sampler's batch size; RL must bootstrap with Halton (added iff absent), use only the supplied set, and use positions that form an in-order subsequence of the agent's policy values (scripted or epsilon-greedy, seeded thread schedules); the four constructor argument combinations are probed.",
+                note="Which pending action is dropped at a session end is deliberately left to C10."),
+    "C11": dict(engine="calsim", category="fault_enumeration", design="4/C11",
+                technique="deterministic simulation with fault injection: an exception injected at EVERY invocation index of the model, the loss and sample() of sampled configurations, compared against the fault-free twin",
+                text="For each sampled configuration (<= 6 batches, round-robin and RL, with/without folder, n_jobs 1 and >1) every single fault position is enumerated; the injected exception must come out of calibrate(), the history must be aligned and bitwise equal to the fault-free run's prefix at a batch boundary, no simulated thread may be alive and no message queued, the folder (if any) must restore to a batch boundary, and the next calibrate(m) must work and extend the history consistently.",
+                note="Configurations are sampled, fault positions within each are complete. Thread liveness is read from the baton scheduler's stand-ins, not from OS threads."),
+    "C14": dict(engine="calsim", category="exploration", design="4/C14",
+                technique="deterministic simulation: loss sequences scripted through the model seam, reference stop model, verbose twin, restore of the written checkpoint",
+                text="Scripted loss sequences x precision (None, 0-12) x verbosity twin x folder x repeated calibrate() calls on a real Calibrator; batches run, rows and batch index per call must equal the reference stop model (first batch after which the running minimum rounds to zero), verbose and quiet twins must be bit-identical, and with a folder the restored checkpoint must equal the returned state including the stopping batch.",
+                note="Scripted values avoid the half-unit rounding boundary; samplers are the history-free ones (losses are dictated, not computed)."),
 }
 
 NOT_APPLICABLE = {
